@@ -107,7 +107,7 @@ theorem fundB {D b b' D'} (h : HR cx D (.b b) (.b b') D') : SoundB (HQ cx) cx D 
 
 /-! ### call levels -/
 
-theorem RRel.retWrap {N : NumOps} {Q : QRel} {β : CellRel} {D' : List DName} {r r' : Res N (Ctl N)} :
+theorem RRel.retWrap {N : NumOps} {Q : QRel} {β : CellRel N} {D' : List DName} {r r' : Res N (Ctl N)} :
     RRel Q cx β (ACtl cx D') r r' →
     RRel Q cx β AEq (match r with
         | .ok (.ret vs) σ2 => (Res.ok vs σ2 : Res N (List (Val N)))
@@ -153,18 +153,18 @@ theorem callClosure_ok {N : NumOps} (ρ : ExtOracle N) (hCF : ∀ n, cx.CF N (ca
       exact (fundB hbb).2 N _ ρ n _ _ _ _ _ (callClosure_ok ρ hCF n) hs1 ⟨rfl, he1⟩⟩
 
 /-- the empty injection -/
-def emptyRel : CellRel := ⟨fun _ _ => False, 0, 0⟩
+def emptyRel {N : NumOps} : CellRel N := ⟨fun _ _ => False, 0, 0, []⟩
 
 /-- the initial dead set: the watched globals -/
 def watD (cx : Cx) : List DName := cx.W.map DName.wat
 
-theorem LocOK.init {cx : Cx} {β : CellRel} : LocOK cx β (watD cx) [] [] :=
+theorem LocOK.init {cx : Cx} {β : CellRel N} : LocOK cx β (watD cx) [] [] :=
   ⟨fun _ _ => by simp only [lookupAssoc, OptRel], fun _ hn => List.mem_map_of_mem hn,
     fun _ _ => ⟨rfl, rfl⟩⟩
 
 /-- a pre-existing closure (e.g. the body a watched global is preset to) that captures nothing and
 respects the initial dead set is related to itself -/
-theorem CRel.initSelf {N : NumOps} {β : CellRel} (f : FnBody) (hf : NoRefF (watD cx) f) :
+theorem CRel.initSelf {N : NumOps} {β : CellRel N} (f : FnBody) (hf : NoRefF (watD cx) f) :
     CRel (HQ cx) cx β (⟨f, [], []⟩ : Closure N) ⟨f, [], []⟩ :=
   ⟨rfl, watD cx, HQ_refl _ _ hf, LocOK.init⟩
 
@@ -183,15 +183,16 @@ theorem SRel.init {N : NumOps} (σ : State N) (hG : ∀ p ∈ cx.G N, σ.getGlob
   cell := fun h => False.elim h
   closures := hcl
   front := ⟨Nat.zero_le _, Nat.zero_le _⟩
+  pin := fun _ hp => by cases hp
 
 theorem runChunk_rel {N : NumOps} (ρ : ExtOracle N) (hCF : ∀ n, cx.CF N (callClosure ρ n)) (n : Nat)
     {b b' : Block} {D' : List DName}
-    (h : HR cx (watD cx) (.b b) (.b b') D') {β : CellRel} {σ σ' : State N} (hs : SRel (HQ cx) cx β σ σ') :
+    (h : HR cx (watD cx) (.b b) (.b b') D') {β : CellRel N} {σ σ' : State N} (hs : SRel (HQ cx) cx β σ σ') :
     RRel (HQ cx) cx β AEq (runChunk ρ n b σ) (runChunk ρ n b' σ') := by
   unfold runChunk
   exact RRel.retWrap ((fundB h).2 N _ ρ n _ _ _ _ _ (callClosure_ok ρ hCF n) hs ⟨rfl, LocOK.init⟩)
 
-theorem observe_rel {N : NumOps} {β : CellRel} {r r' : Res N (List (Val N))} (h : RRel (HQ cx) cx β AEq r r') :
+theorem observe_rel {N : NumOps} {β : CellRel N} {r r' : Res N (List (Val N))} (h : RRel (HQ cx) cx β AEq r r') :
     (cx.upto = true ∧ observe r = .timeout) ∨ observe r' = observe r := by
   cases r <;> cases r' <;> simp only [RRel] at h
   · obtain ⟨β1, _, ha, hs⟩ := h
